@@ -400,8 +400,42 @@ func (ex *executor) rawStep(idx int, st *Step) {
 	if xc.BodyFailed || xc.BodyCut {
 		ex.res.Stats.FaultsFired["req-body:"+xc.BodyFault.Kind]++
 	}
-	ex.log.Addf("  -> %d %v body=%q", xc.Resp.Status, sortedHeader(xc.Resp.H), clipS(string(xc.Resp.Body), 200))
+	ex.log.Addf("  -> %d %v body=%q", xc.Resp.Status, sortedHeader(xc.Resp.H), clipS(canonBody(&xc.Resp), 300))
 	ex.judgeExchange(idx, st, xc)
+}
+
+// canonBody renders a response body for the event log. The order of the
+// properties inside a propstat comes from Go's randomised map iteration in
+// go-webdav (internal.NewPropFindResponse) and carries no meaning, so a
+// multi-status is logged with its properties sorted.
+func canonBody(r *model.Response) string {
+	if r.Status != 207 {
+		return string(r.Body)
+	}
+	ms, err := model.ParseMultiStatus(r.Body)
+	if err != nil {
+		return string(r.Body)
+	}
+	var b strings.Builder
+	for _, resp := range ms.Responses {
+		fmt.Fprintf(&b, "[%s status=%d", strings.Join(resp.Hrefs, ","), resp.Status)
+		var ps []string
+		for _, p := range resp.Props {
+			ps = append(ps, fmt.Sprintf(" %d:%s=%s", p.Status, p.Name, renderElem(p.Elem)))
+		}
+		sort.Strings(ps)
+		b.WriteString(strings.Join(ps, ""))
+		b.WriteString("]")
+	}
+	return b.String()
+}
+
+func renderElem(e *model.Elem) string {
+	s := strings.TrimSpace(e.Text)
+	for _, k := range e.Kids {
+		s += "<" + k.Name() + ">" + renderElem(k)
+	}
+	return s
 }
 
 func clipS(s string, n int) string {
@@ -666,7 +700,7 @@ func (ex *executor) checkHrefs(idx int, class string, xc *Exchange, snap map[str
 	}
 	for _, r := range ms.Responses {
 		for _, h := range r.Hrefs {
-			ref := model.ParseRef(h)
+			ref := model.ParseHref(h)
 			n := model.Normalise(ref.Path)
 			if !ref.OK || !n.OK || n.Escapes || ref.HasAuth {
 				ex.finding(Violation{Prop: "C03", Clause: "href-outside", Class: class, Msg: fmt.Sprintf("href %q does not lie inside the served namespace", h), Step: idx})
